@@ -94,7 +94,8 @@ THROWER_SAFE = {
     "btclib.p2p.message._command_from_bytes:decode": ("precheck", "_FIRST_PRINTABLE"),
     "btclib.bech32.encode:encode": "encoder, not a parser/decoder; the data part is the bech32 alphabet",
     "btclib.mnemonic.electrum.old_master_prv_key_from_mnemonic:encode": "hex digits produced by the function's own formatting",
-    "btclib.script.sig_hash.redeem_script:fromhex": "a command the script parser produced as a hex string",
+    # a command of script.parse(): a hex string for a push -- or ERROR_COMMAND ("[error]") for a truncated one, which is no hex
+    "btclib.script.sig_hash.redeem_script:fromhex": ("precheck", "ERROR_COMMAND"),
     "btclib.script.taproot._output_pubkey_and_internal_key:fromhex": "literal NUMS constant",
     "btclib.mnemonic.electrum._search_mnemonic:int2": "a string of 0/1 the library just formatted",
     "btclib.mnemonic.electrum.mnemonic_from_entropy:int2": "a string of 0/1 the library just formatted",
@@ -639,7 +640,50 @@ def rule_coercion_used_(ctx: Ctx, rep: Report) -> None:
     rule_coercion_used(ctx, rep, "C19.coercion_used", ('btclib.',))
 
 
+def rule_empty_element_index(ctx: Ctx, rep: Report) -> None:
+    """C19.empty_element_index: an element of a witness stack may be empty -- the
+    parser accepts `00` as an element -- so `stack[i][j]`, which is an
+    IndexError on an empty element, is written only where the element is known
+    not to be empty: under a test of it (`if not stack[-1]: raise`, a length
+    test), or after a validation of it (or of a local that is it) that refuses.
+    The slice `stack[i][:1] == b"\x50"` is the form that needs no guard."""
+    rule = "C19.empty_element_index"
+    n = 0
+    for q, fi in sorted(ctx.prog.functions.items()):
+        if not q.startswith(("btclib.script.", "btclib.silent_payments", "btclib.psbt.", "btclib.bip322", "btclib.tx.")):
+            continue
+        sites = [x for x in own_nodes(fi.node) if isinstance(x, ast.Subscript) and isinstance(x.ctx, ast.Load) and isinstance(x.value, ast.Subscript) and isinstance(x.value.value, ast.Name)
+                 and isinstance(ctx.fold(x.slice, fi.module), int) and not isinstance(x.slice, ast.Slice)
+                 and isinstance(ctx.fold(x.value.slice, fi.module), int) and not isinstance(x.value.slice, ast.Slice)]
+        if not sites:
+            continue
+        # only lists of byte strings: the outer name is iterated / sliced as a stack of elements (len(x[i]) or x[i][a:b] or x.pop appear) -- a tuple of ints is not
+        g = ctx.cfg(fi)
+        for x in sites:
+            base = x.value.value.id
+            elem = str(norm(x.value)).replace(" ", "")
+            is_stack = any(isinstance(y, ast.Subscript) and isinstance(y.slice, ast.Slice) and isinstance(y.value, ast.Subscript) and isinstance(y.value.value, ast.Name) and y.value.value.id == base
+                           for y in own_nodes(fi.node)) or any(isinstance(c, ast.Call) and isinstance(c.func, ast.Attribute) and c.func.attr in ("pop", "append") and isinstance(c.func.value, ast.Name) and c.func.value.id == base for c in own_nodes(fi.node)) \
+                or "stack" in str(norm(ast.Name(id=base)))
+            if not is_stack:
+                continue
+            n += 1
+            aliases = {elem} | {a.targets[0].id for a in own_nodes(fi.node) if isinstance(a, ast.Assign) and isinstance(a.targets[0], ast.Name) and str(norm(a.value)).replace(" ", "") == elem}
+            facts = [str(t).replace(" ", "") for t, pol in g.facts_at_ast(x)]
+            guarded = any(any(al in t for al in aliases) for t in facts)
+            if not guarded:
+                for t, pol, node in ctx.refusals(fi):
+                    tt = str(norm(t)).replace(" ", "")
+                    if getattr(t, "lineno", 0) <= x.lineno and any(al in tt for al in aliases):
+                        guarded = True
+                        break
+            rep.ob(rule, f"{q}:{elem}[{ctx.fold(x.slice, fi.module)}]", guarded, fi.where(x), f"`{norm(x)}` is read where `{elem}` was tested or validated" if guarded else
+                   f"`{norm(x)}`: nothing on the way here says `{elem}` is not empty -- an empty witness element is an IndexError, outside the exception contract")
+    rep.floor(rule, 2)
+
+
 RULES = [
+    ("C19.empty_element_index", rule_empty_element_index),
     ("C19.loose_to_strict", rule_loose_to_strict_),
     ("C19.coercion_used", rule_coercion_used_),
 
